@@ -12,7 +12,8 @@
 From Coq Require Import Reals ZArith List Bool.
 From Coquelicot Require Import Coquelicot.
 From LP Require Import Num NumR C06_Model C06_Proofs_Fact C06_Proofs_Gamma C06_Proofs_QInt C06_Proofs_Seq C06_Proofs_Quad C06_Proofs_Inv
-  C06_Proofs_Ser C06_Proofs_Lanczos0 C06_Proofs_Lanczos C06_Proofs_Examples C06_Proofs_Region C06_Proofs_IntShape.
+  C06_Proofs_Ser C06_Proofs_Lanczos0 C06_Proofs_Lanczos C06_Proofs_Examples C06_Proofs_Region C06_Proofs_IntShape
+  OrdLaws C06_Model2 C06_Proofs_AnyArith C06_Proofs_Warn C06_Proofs_WarnR Gen_C06_Formulas C06_GenTie.
 (* C06_Proofs_Examples.v: concrete inputs satisfying the hypotheses of the implications below (non-vacuity) *)
 Import ListNotations.
 Local Open Scope bool_scope.
@@ -385,3 +386,115 @@ Theorem C06_series_accuracy_integer_shape_partial (q : nat) (x : R) : (S q <= 10
     exp (- T) * P <= p * (1 + dbl_eps ROps * (INR (S q) + 155)) /\ p <= exp T * P.
 Proof. exact (gammap_integer_shape_accuracy q x). Qed.
 Print Assumptions C06_series_accuracy_integer_shape_partial.
+
+(** * Seventh pass: theorems in EVERY arithmetic (any NumOps instance: the reals, and the IEEE doubles of the extracted program as they are -
+    rounding, infinities, NaN included; no law of arithmetic is used), the diagnostics of Integrate, and the T-tie.
+    Examples for the hypotheses: C06_Proofs_WarnR.v (fuel_example, order_hypotheses_example, factorial_recurrence_example, warning_raised_example),
+    C06_Proofs_Seq.v (call_history_example), C06_GenTie.v (ROps_LitLaws). *)
+
+(** Quantifier "over inputs AND histories", now for the doubles themselves: in ANY arithmetic, in every history of calls to the family in one
+    process each call gets EXACTLY (Leibniz equality of the outcomes: bit for bit in doubles) the answer a fresh process gives to the same call.
+    (C06_call_history_independent is the instance T = R.) *)
+Theorem C06_call_history_independent_any_arithmetic (T : Type) (Ops : NumOps T) (cs : list (@call T)) :
+  List.Forall (fun hf => fst hf = snd hf) (snd (call_run Ops (fact_init Ops) cs)) /\
+  length (snd (call_run Ops (fact_init Ops) cs)) = length cs.
+Proof. exact (call_history_independent_any Ops cs). Qed.
+Print Assumptions C06_call_history_independent_any_arithmetic.
+
+(** ... and the same call made twice, with any calls before and in between, is answered identically, in any arithmetic. *)
+Theorem C06_call_repeatable_any_arithmetic (T : Type) (Ops : NumOps T) (c : @call T) (before between : list (@call T)) :
+  let t1 := fst (call_run Ops (fact_init Ops) before) in
+  let '(t2, o1) := call_step Ops t1 c in
+  let t3 := fst (call_run Ops t2 between) in
+  snd (call_step Ops t3 c) = o1.
+Proof. exact (call_repeatable_any Ops c before between). Qed.
+Print Assumptions C06_call_repeatable_any_arithmetic.
+
+(** "all n<=170 for Factorial in every call order (the memo table grows on demand)", in any arithmetic: for EVERY history of calls from
+    FactorialList = {1.0} each call with 0 <= n <= 170 answers the product  Fprod n = (..((1 * 1) * 2) .. ) * n  formed left to right, each
+    factor multiplied in ONCE by the arithmetic at hand (in doubles: the rounded products the source forms), each other call exits; the table
+    keeps entry k = Fprod k and is only ever extended. *)
+Theorem C06_factorial_any_history_any_arithmetic (T : Type) (Ops : NumOps T) (ns : list Z) :
+  List.Forall2 (fact_answer (Fprod Ops)) ns (snd (factorial_run Ops (fact_init Ops) ns)) /\
+  tbl_inv Ops (Fprod Ops) (fst (factorial_run Ops (fact_init Ops) ns)) /\
+  exists ext, fst (factorial_run Ops (fact_init Ops) ns) = fact_init Ops ++ ext.
+Proof. exact (factorial_run_any Ops ns). Qed.
+Print Assumptions C06_factorial_any_history_any_arithmetic.
+
+(** "n! = n*(n-1)!" holds EXACTLY (no rounding slack) in any arithmetic: from any two reachable tables, Factorial(n) is the one product
+    Factorial(n-1) * n.  (In doubles: the recurrence is satisfied bit for bit, whatever was asked before either call.) *)
+Theorem C06_factorial_recurrence_exact_any_arithmetic (T : Type) (Ops : NumOps T) (t1 t2 : list T) (n : Z) :
+  tbl_inv Ops (Fprod Ops) t1 -> tbl_inv Ops (Fprod Ops) t2 -> (1 <= n <= 170)%Z ->
+  exists w, snd (factorial_step Ops t1 (n - 1)) = Ok w /\ snd (factorial_step Ops t2 n) = Ok (nmul Ops w (nofZ Ops n)).
+Proof. exact (factorial_recurrence_any Ops t1 t2 n). Qed.
+Print Assumptions C06_factorial_recurrence_exact_any_arithmetic.
+
+(** The fuel the model gives to the source's uncapped loops is immaterial, in any arithmetic: an answer of GammaPser's series loop, GammaQcf's
+    Lentz loop or GammaQint's panel loop obtained with some fuel is the answer with every larger fuel (i.e. of the source's unbounded loop), and
+    the first two loops only ever answer or report exhausted fuel (never Exit / OOB). *)
+Theorem C06_fuel_immaterial (T : Type) (Ops : NumOps T) :
+  (forall f1 f2 x ap del sum v, (f1 <= f2)%nat -> gser_loop Ops f1 x ap del sum = Ok v -> gser_loop Ops f2 x ap del sum = Ok v) /\
+  (forall f1 f2 a s v, (f1 <= f2)%nat -> lentz_loop Ops f1 a s = Ok v -> lentz_loop Ops f2 a s = Ok v) /\
+  (forall f1 f2 (f : T -> T) x w t1 acc v, (f1 <= f2)%nat -> panel_loop Ops f1 f x w t1 acc = Ok v -> panel_loop Ops f2 f x w t1 acc = Ok v) /\
+  (forall f x ap del sum, (exists v, gser_loop Ops f x ap del sum = Ok v) \/ gser_loop Ops f x ap del sum = Fuel) /\
+  (forall f a s, (exists v, lentz_loop Ops f a s = Ok v) \/ lentz_loop Ops f a s = Fuel).
+Proof. exact (fuel_immaterial Ops). Qed.
+Print Assumptions C06_fuel_immaterial.
+
+(** "P and Q lie in [0,1]" on the quadrature branch, in the order of the doubles: under the laws of a strict total order alone (OrdLaws: true of
+    the non-NaN doubles as they are) and 0 < 1, every answer of GammaQint is 1 - g for a g with 0 <= g <= 1 in that order (the subtraction stays
+    uninterpreted; in IEEE arithmetic 1 - g is then exact up to one rounding and lies in [0,1]). *)
+Theorem C06_gammaq_int_clamped_in_any_order (T : Type) (Ops : NumOps T) : OrdLaws Ops -> nltb Ops (n0 Ops) (n1 Ops) = true ->
+  forall x a q, gammaq_int Ops x a = Ok q ->
+  exists g, q = nsub Ops (n1 Ops) g /\ nleb Ops (n0 Ops) g = true /\ nleb Ops g (n1 Ops) = true.
+Proof. exact (gammaq_int_clamped Ops). Qed.
+Print Assumptions C06_gammaq_int_clamped_in_any_order.
+
+(** Inv_GammaP's Halley loop in any arithmetic: an iterate that compares <= 0 at the loop's test is answered 0 at once. *)
+Theorem C06_inverse_underflow_returns_zero_any_arithmetic (T : Type) (Ops : NumOps T) (p a gln a1 lna1 afac x : T) (n : nat) :
+  nleb Ops x (n0 Ops) = true -> halley Ops p a gln a1 lna1 afac (S n) x = Ok (n0 Ops).
+Proof. exact (halley_nonpos_any Ops p a gln a1 lna1 afac x n). Qed.
+Print Assumptions C06_inverse_underflow_returns_zero_any_arithmetic.
+
+(** The model with Integrate's diagnostics (C06_Model2.v: the flag  bool& warning  of Adaptive_Simpson_Integration, std::isnan(result), and
+    GammaQint's count of panels that printed them - run against the library's captured output on every check) EXTENDS the model all other
+    theorems are about: dropping the flags gives exactly asr / integrate / panel_loop / gammaq_int, in any arithmetic; and the counters count
+    at most one per panel (so at most 64, for GammaQint at most the 21 panels of C06_gammaq_int_regions). *)
+Theorem C06_diagnostics_model_extends_model (T : Type) (Ops : NumOps T) :
+  (forall bottom f a b epsilon S fa fb fc, fst (asr_w Ops bottom f a b epsilon S fa fb fc) = asr Ops bottom f a b epsilon S fa fb fc) /\
+  (forall f a b epsilon depth, fst (integrate_w Ops f a b epsilon depth) = integrate Ops f a b epsilon depth) /\
+  (forall fuel f x w t1 acc nw nn, rmap fst (panel_loop_w Ops fuel f x w t1 acc nw nn) = panel_loop Ops fuel f x w t1 acc) /\
+  (forall x a, rmap fst (gammaq_int_w Ops x a) = gammaq_int Ops x a) /\
+  (forall fuel f x w t1 acc nw nn v cw cn, panel_loop_w Ops fuel f x w t1 acc nw nn = Ok (v, (cw, cn)) ->
+     (nw <= cw <= nw + Z.of_nat fuel /\ nn <= cn <= nn + Z.of_nat fuel)%Z).
+Proof.
+  exact (conj (asr_w_value Ops) (conj (integrate_w_value Ops) (conj (panel_loop_w_value Ops) (conj (gammaq_int_w_value Ops) (panel_loop_w_counts Ops))))).
+Qed.
+Print Assumptions C06_diagnostics_model_extends_model.
+
+(** Integrate's convergence warning measures |S2 - S| and nothing else: on every cubic integrand (Simpson exact, S2 = S) Integrate raises no
+    "did not converge" warning for EVERY recursion floor (0 included), tolerance and order of the limits (reals). *)
+Theorem C06_integrate_no_warning_on_cubics (c0 c1 c2 c3 a b eps : R) (depth : nat) :
+  fst (snd (integrate_w ROps (fun t => c0 + c1 * t + c2 * t ^ 2 + c3 * t ^ 3) a b eps depth)) = false.
+Proof. exact (integrate_w_cubic_silent c0 c1 c2 c3 a b eps depth). Qed.
+Print Assumptions C06_integrate_no_warning_on_cubics.
+
+(** ** T-tie: the definitions regenerated from src/Special_Functions.cpp on every run (Gen_C06_Formulas.v, by tools/cxx2gallina.py from clang's
+    AST: Gamma, GammaQ with its guards and choice of the method, GammaP, Upper_Incomplete_Gamma, Lower_Incomplete_Gamma, Inv_GammaQ; the looping
+    functions they call instantiated with the hand model's gammaln, gammaq_int, gammap_ser, gammaq_cf, inv_gammap) ARE the model the theorems above
+    are about, for all arguments, in every arithmetic in which an integer literal is the integer and 0, 1 are the ring constants (LitLaws; true
+    in the reals, second statement, and of the doubles).  A changed comparison, guard, literal, operand order or callee in one of these C++
+    functions breaks this theorem before any case is run. *)
+Theorem C06_generated_Gamma_GammaQ_GammaP_Upper_Lower_InvGammaQ_is_model (T : Type) (Ops : NumOps T) : LitLaws Ops ->
+  (forall x, g_Gamma Ops (gammaln Ops) (gammaq_int Ops) (gammap_ser Ops) (gammaq_cf Ops) (inv_gammap Ops) x = gamma Ops x) /\
+  (forall x a, g_GammaQ Ops (gammaln Ops) (gammaq_int Ops) (gammap_ser Ops) (gammaq_cf Ops) (inv_gammap Ops) x a = gammaq Ops x a) /\
+  (forall x a, g_GammaP Ops (gammaln Ops) (gammaq_int Ops) (gammap_ser Ops) (gammaq_cf Ops) (inv_gammap Ops) x a = gammap Ops x a) /\
+  (forall x s, g_Upper_Incomplete_Gamma Ops (gammaln Ops) (gammaq_int Ops) (gammap_ser Ops) (gammaq_cf Ops) (inv_gammap Ops) x s = upper_incomplete_gamma Ops x s) /\
+  (forall x s, g_Lower_Incomplete_Gamma Ops (gammaln Ops) (gammaq_int Ops) (gammap_ser Ops) (gammaq_cf Ops) (inv_gammap Ops) x s = lower_incomplete_gamma Ops x s) /\
+  (forall q a, g_Inv_GammaQ Ops (gammaln Ops) (gammaq_int Ops) (gammap_ser Ops) (gammaq_cf Ops) (inv_gammap Ops) q a = inv_gammaq Ops q a).
+Proof. exact (generated_is_model_of_laws Ops). Qed.
+Print Assumptions C06_generated_Gamma_GammaQ_GammaP_Upper_Lower_InvGammaQ_is_model.
+
+Theorem C06_generated_is_model_over_the_reals : generated_is_model ROps.
+Proof. exact generated_is_model_R. Qed.
+Print Assumptions C06_generated_is_model_over_the_reals.
